@@ -327,7 +327,7 @@ def random_specs(tier, seed):
     """(b) long random conversations, fault rate 0..30 %"""
     rnd = random.Random(seed * 7919 + 17)
     quick = tier == "quick"
-    n = 60 if quick else 2500
+    n = 60 if quick else 1500
     out = []
     for j in range(n):
         cfg = dict(rnd.choice(CONFIGS))
